@@ -142,8 +142,21 @@ func runEncodePre(ec encCfg, files []encFile, kind int, bufSize int, stream bool
 		res.data, res.ops, res.log = core.data, core.ops, core.log
 	}()
 	opts := append(ec.options(), encoder.WithWriteBufferSize(bufSize))
+	// a reused encoder: first a run with quite another configuration into a throw-away destination, then Reset to this one
+	other := encCfg{bigEndian: !ec.bigEndian, headerOpt: encoder.HeaderOptionCompressedTimestamp, localTypes: 3, protoVer: proto.V2, bufSize: 7, headerSize: 14}
+	if ec.headerOpt == encoder.HeaderOptionCompressedTimestamp {
+		other.headerOpt, other.localTypes = encoder.HeaderOptionNormal, 15
+	}
 	if !stream {
 		enc := encoder.New(w, opts...)
+		if ec.reuse {
+			junk, _ := newDest(3, -1, 0, nil)
+			enc = encoder.New(junk, other.options()...)
+			for _, f := range files {
+				_ = enc.Encode(&proto.FIT{Messages: cloneMessages(f.msgs)})
+			}
+			enc.Reset(w, opts...)
+		}
 		for i, f := range files {
 			fit := &proto.FIT{FileHeader: proto.FileHeader{Size: f.hsize, ProtocolVersion: f.proto, ProfileVersion: f.profile}, Messages: cloneMessages(f.msgs)}
 			if presetDS != nil {
@@ -166,6 +179,23 @@ func runEncodePre(ec encCfg, files []encFile, kind int, bufSize int, stream bool
 	if err != nil {
 		res.errs = append(res.errs, true)
 		return
+	}
+	if ec.reuse {
+		junk, _ := newDest(3, -1, 0, nil)
+		if senc, err = encoder.NewStream(junk, other.options()...); err != nil {
+			res.errs = append(res.errs, true)
+			return
+		}
+		for _, f := range files[:1] { // left in the middle of a sequence: no SequenceCompleted
+			msgs := cloneMessages(f.msgs)
+			for k := range msgs {
+				_ = senc.WriteMessage(&msgs[k])
+			}
+		}
+		if err := senc.Reset(w, opts...); err != nil {
+			res.errs = append(res.errs, true)
+			return
+		}
 	}
 	for _, f := range files {
 		failed := false
@@ -359,6 +389,20 @@ func c09(args []string) {
 						if casesLeft > 0 && r.chance(1, 6) {
 							emitWriterCase(ec, files, kind, bs, stream, -1, 0, preset, res)
 							casesLeft--
+						}
+						if r.chance(1, 5) && !(stream && kind == 0) { // the same through an encoder that was used before and Reset
+							ec2 := ec
+							ec2.reuse = true
+							var ds2 []uint32
+							if preset {
+								ds2 = ds
+							}
+							res2 := runEncode(ec2, files, kind, bs, stream, -1, 0, ds2)
+							stat("oracle_reused_encoder", 1)
+							if res2.panicked != nil || anyTrue(res2.errs) || !bytes.Equal(res2.data, ref.data) {
+								emitJSON("FAIL", "", map[string]any{"kind": "content-depends-on-what-the-encoder-did-before-Reset", "writer": kindNames[kind], "bufsize": bs, "stream": stream,
+									"errs": res2.errs, "panic": fmt.Sprint(res2.panicked), "cfg": ec.coq(), "input": coqEFiles(files), "got": fmt.Sprintf("%x", res2.data), "want": fmt.Sprintf("%x", ref.data)})
+							}
 						}
 					}
 				}
